@@ -145,4 +145,10 @@ theorem C02_system_tracker_consistent (ops : List SysOp) :
     ∀ e ∈ (Sys.init.execOps ops).subs, e.st.out.Inv ∧ e.st.deleted = false :=
   fun e he => ⟨(SubsOk_all ops e he).1.out, (SubsOk_all ops e he).2⟩
 
+/-- The L1 theorems of this file (and of C01, C03, C04, C05, C08) quantify over all turn sequences of
+    one subscription actor; by the bridge `Sys_subs_are_turn_runs` every subscription of every
+    reachable system state is such a run. Restated here for C02's consistency invariant. -/
+theorem C02_reachable_is_turn_run (ops : List SysOp) : ∀ e ∈ (Sys.init.execOps ops).subs, IsTurnRun e.st :=
+  Sys_subs_are_turn_runs ops
+
 end Deltio
